@@ -93,7 +93,8 @@ class CenterSliceErrorModel(SimpleErrorModel):
                 else:
                     pN = p3  # opposing limit at intersect with 12-plane
                 # return slice and plane interest
-                return cls._normalize(cls._line_plane_intersect(pN, pO, pC - pL, pL))
+                # intersect lies on the triangle boundary so clip rounding noise below zero
+                return cls._normalize(np.clip(cls._line_plane_intersect(pN, pO, pC - pL, pL), 0, None))
         raise QecsimError('Failed to find negative-limit.')
 
     @classmethod
@@ -146,7 +147,7 @@ class CenterSliceErrorModel(SimpleErrorModel):
     def probability_distribution(self, probability):
         """See :meth:`qecsim.model.ErrorModel.probability_distribution`"""
         p_x, p_y, p_z = np.array(self.ratio) * probability
-        p_i = 1 - sum((p_x, p_y, p_z))
+        p_i = max(0.0, 1 - sum((p_x, p_y, p_z)))  # rounding can leave the sum a few ulp above 1
         return p_i, p_x, p_y, p_z
 
     @property
